@@ -127,7 +127,14 @@ def check(ctx, items):
     ctx.traces += len(sub)
     splits = vlib.model([{"op": "sig_split", "sig_hex": it["sig"].get("sig_hex", ""), "width": WIDTH.get(it["type"], 0)}
                          if it["type"] in WIDTH else {"op": "ping"} for it in good], timeout=3000)
-    for it, m, sp in zip(good, mod, splits):
+    # "signatures have the JWS-mandated length": Spec.C15.sigLenHolds (RSA: the modulus size, taken from the
+    # key components OpenSSL extracted)
+    def modulus_bytes(it):
+        raw = it["k"]["raw"]
+        return len(raw.get("n_hex", "")) // 2 if raw.get("kind") == "rsa" else 0
+    lens = vlib.model([{"op": "c15_siglen", "alg": ALG[it["type"]], "modulus_bytes": modulus_bytes(it),
+                        "len": len(it["sig"].get("sig_hex", "")) // 2} for it in good], timeout=3000)
+    for (it, m, sp), lv in zip(zip(good, mod, splits), lens):
         kt, k = it["type"], it["k"]
         ctx.case({"pub": k["pub_der_hex"]})
         ctx.count("keys:" + kt)
@@ -165,7 +172,7 @@ def check(ctx, items):
             v.update({"r_hex": sp["r_hex"], "s_hex": sp["s_hex"]})
         else:
             v["sig_hex"] = sg["sig_hex"]
-        if siglen != SIGLEN[kt]:
+        if not lv.get("holds"):
             ctx.violation("signature length %d for %s, JWS mandates %d" % (siglen, ALG[kt], SIGLEN[kt]),
                           dict(robj, sig_hex=sg["sig_hex"]))
             continue
